@@ -12,6 +12,7 @@
 //!   noise                          post-handshake ciphertext into noise::Stream (authentic / tampered / junk frames)
 //!   canon                          canonical_raw on a schema with repeated scalars (empty packed chunks)
 //!   sel / cqc / tqc / implied      selection function and certificate verification on extreme, well-signed values
+//!   votes                          sequences of signed commit / timeout votes into a real replica vs the cache model
 //!   replica                        extreme signed messages into a real replica (monitor only)
 use std::{
     alloc::{GlobalAlloc, Layout, System},
@@ -1118,6 +1119,50 @@ fn gen_consensus(rng: &mut StdRng, n: usize, ops: &mut Vec<Value>) {
     }
 }
 
+
+/// sequences of signed commit / timeout votes for a fresh replica (vote caches, certificate formation, view advance)
+fn gen_votes(rng: &mut StdRng, n: usize, ops: &mut Vec<Value>) {
+    let nval = WEIGHTS.len();
+    let ctxj = json!({"genesis": 0, "epoch": 0, "weights": WEIGHTS, "quorum": certgen::quorum(&WEIGHTS), "subquorum": certgen::subquorum(&WEIGHTS)});
+    for _ in 0..n {
+        let views: Vec<u64> = vec![0, 1, 2, rng.gen_range(0..6), u64::MAX - 1, u64::MAX];
+        let base = *views.choose(rng).unwrap();
+        let mut msgs = vec![];
+        // half of the cases contain a full round: every member votes for the same thing at `base`, so that a
+        // certificate forms, the caches are pruned and the view advances (wrapping at 2^64-1)
+        let round = rng.gen_bool(0.6);
+        let round_commit = rng.gen::<bool>();
+        let mut order: Vec<usize> = (0..nval).collect();
+        order.shuffle(rng);
+        let total = if round { nval + rng.gen_range(0..8) } else { rng.gen_range(2..14) };
+        let mut next_member = 0;
+        for k in 0..total {
+            let scripted = round && next_member < nval && (rng.gen_bool(0.7) || total - k <= nval - next_member);
+            let from = if scripted { next_member += 1; order[next_member - 1] }
+                else if rng.gen_bool(0.93) { rng.gen_range(0..nval) } else { nval + rng.gen_range(0..2) };
+            let bad_sig = !scripted && rng.gen_bool(0.05);
+            let v = if scripted || rng.gen_bool(0.6) { base } else { *views.choose(rng).unwrap() };
+            let view = abs::AView { g: if scripted || rng.gen_bool(0.95) { 0 } else { 1 }, e: if scripted || rng.gen_bool(0.95) { 0 } else { 3 }, v };
+            let signer = if from < nval { json!(from) } else { Value::Null };
+            if (scripted && round_commit) || (!scripted && rng.gen_bool(0.6)) {
+                let vote = abs::AVote { view, n: if scripted || rng.gen_bool(0.8) { 1 } else { *BIG.choose(rng).unwrap() }, h: if scripted { 0 } else { rng.gen_range(0..2) } };
+                msgs.push(json!({"kind": "commit", "from": from, "bad_sig": bad_sig, "signer": signer, "sig": !bad_sig, "a": vote, "m": vote_j(&vote)}));
+            } else {
+                let hv = (!scripted && rng.gen_bool(0.4)).then(|| abs::avote(rng.gen_range(0..3), rng.gen_range(0..3), 1));
+                let hq = (!scripted && rng.gen_bool(0.3)).then(|| {
+                    let s = if rng.gen_bool(0.8) { certgen::random_subset(rng, &WEIGHTS) } else { vec![0] };
+                    let mut q = abs::acqc(nval, abs::avote(rng.gen_range(0..3), rng.gen_range(0..3), 2), &s);
+                    if rng.gen_bool(0.1) { q.signers.push(true); }
+                    q
+                });
+                let t = abs::ATVote { view, hv, hq };
+                msgs.push(json!({"kind": "timeout", "from": from, "bad_sig": bad_sig, "signer": signer, "sig": !bad_sig, "a": t, "m": tvote_j(&t, nval)}));
+            }
+        }
+        ops.push(json!({"op": "votes", "reset": true, "ctx": ctxj, "me": rng.gen_range(0..nval), "msgs": msgs}));
+    }
+}
+
 /// JSON shape of the model (`Driver/C10.lean`) from the shared abstract certificate types
 fn view_j(v: &abs::AView) -> Value { json!({"g": v.g, "e": v.e, "v": v.v}) }
 fn vote_j(v: &abs::AVote) -> Value { json!({"view": view_j(&v.view), "n": v.n, "h": v.h}) }
@@ -1590,15 +1635,16 @@ fn futures_noop_waker() -> Waker {
 }
 
 impl C10 {
-    fn qmsg(&mut self, j: &Value) -> validator::Signed<validator::ConsensusMsg> {
+    /// `tag` makes two messages of the same sender, kind and view distinct (different block number)
+    fn qmsg(&mut self, j: &Value, tag: u64) -> validator::Signed<validator::ConsensusMsg> {
         let key = j["key"].as_u64().unwrap_or(0) as usize;
         let inner = j["inner"].as_u64().unwrap_or(0);
         let w = self.world();
         let n = w.n();
-        let qc = abs::acqc(n, abs::avote(inner, 1, 3), &[]);
+        let qc = abs::acqc(n, abs::avote(inner, tag, 3), &[]);
         let msg = match j["kind"].as_str().unwrap_or("") {
-            "commit" => v2::ChonkyMsg::ReplicaCommit(w.vote(&abs::avote(inner, 1, 3))),
-            "timeout" => v2::ChonkyMsg::ReplicaTimeout(w.tvote(&abs::ATVote { view: abs::aview(inner), hv: None, hq: None })),
+            "commit" => v2::ChonkyMsg::ReplicaCommit(w.vote(&abs::avote(inner, tag, 3))),
+            "timeout" => v2::ChonkyMsg::ReplicaTimeout(w.tvote(&abs::ATVote { view: abs::aview(inner), hv: Some(abs::avote(0, tag, 3)), hq: None })),
             "proposal" => v2::ChonkyMsg::LeaderProposal(v2::LeaderProposal { proposal_payload: None, justification: v2::ProposalJustification::Commit(w.cqc(&qc)) }),
             _ => v2::ChonkyMsg::ReplicaNewView(v2::ReplicaNewView { justification: v2::ProposalJustification::Commit(w.cqc(&qc)) }),
         };
@@ -1606,8 +1652,8 @@ impl C10 {
     }
 
     fn exec_sel(&mut self, op: &Value) -> Value {
-        let old = self.qmsg(&op["old"]);
-        let new = self.qmsg(&op["new"]);
+        let old = self.qmsg(&op["old"], 1);
+        let new = self.qmsg(&op["new"], 2);
         let (ov, nv) = (old.msg.view_number().0, new.msg.view_number().0);
         let (send, mut recv) = zksync_consensus_bft::create_input_channel();
         let mk = |m: validator::Signed<validator::ConsensusMsg>| zksync_consensus_bft::FromNetworkMessage { msg: m, ack: zksync_concurrency::oneshot::channel().0 };
@@ -1618,7 +1664,7 @@ impl C10 {
         while let Some(Ok(m)) = poll_once(recv.recv(&ctx)) {
             got.push(m.msg);
         }
-        let sel = if got.len() == 2 { "Keep" } else if got.len() == 1 && got[0] == new && got[0] != old { "DiscardOld" }
+        let sel = if got.len() == 2 { "Keep" } else if got.len() == 1 && got[0] == new { "DiscardOld" }
             else if got.len() == 1 && got[0] == old { "DiscardNew" } else { "?" };
         json!({"sel": sel, "old_view": ov, "new_view": nv})
     }
@@ -1661,6 +1707,46 @@ impl C10 {
         }
     }
 
+
+    fn exec_votes(&mut self, op: &Value, out: &mut Out) -> Value {
+        let me = op["me"].as_u64().unwrap_or(0) as usize;
+        let mut built = vec![];
+        for m in op["msgs"].as_array().cloned().unwrap_or_default() {
+            let w = self.world();
+            let from = m["from"].as_u64().unwrap() as usize;
+            let bad = m["bad_sig"].as_bool().unwrap_or(false);
+            let msg = if m["kind"] == "commit" {
+                let a: abs::AVote = serde_json::from_value(m["a"].clone()).expect("AVote");
+                v2::ChonkyMsg::ReplicaCommit(w.vote(&a))
+            } else {
+                let a: abs::ATVote = serde_json::from_value(m["a"].clone()).expect("ATVote");
+                v2::ChonkyMsg::ReplicaTimeout(w.tvote(&a))
+            };
+            built.push(w.signed(from, msg, bad));
+        }
+        let w = self.world.take().unwrap();
+        let (classes, view) = self.rt.block_on(async {
+            let mut rig = sim::Rig::new(&w, me).await;
+            let mut classes = vec![];
+            for m in built {
+                if rig.dead { break; }
+                classes.push(rig.step_msg(m, None).await.class);
+            }
+            let view = rig.snapshot().view.0;
+            (classes, view)
+        });
+        self.world = Some(w);
+        let mut verdicts = vec![];
+        for c in &classes {
+            if let Some(site) = c.strip_prefix("panic:") {
+                out.oracle_fail(site, "a signed vote crashed the replica", op.clone());
+                return json!({"panic": site});
+            }
+            verdicts.push(if c == "accepted" { "accepted".to_string() } else if c.starts_with("rejected") { "rejected".to_string() } else { c.clone() });
+        }
+        json!({"verdicts": verdicts, "view": view, "_classes": classes})
+    }
+
     fn exec_replica(&mut self, op: &Value, out: &mut Out) -> Value {
         let me = op["me"].as_u64().unwrap_or(0) as usize;
         let msgs = op["msgs"].as_array().cloned().unwrap_or_default();
@@ -1673,7 +1759,11 @@ impl C10 {
             let signers: Vec<bool> = m["signers"].as_array().unwrap().iter().map(|b| b.as_bool().unwrap()).collect();
             let from = m["from"].as_u64().unwrap() as usize;
             let vote = abs::avote(view, num, 3);
-            let who: Vec<(usize, abs::AVote)> = signers.iter().enumerate().filter(|(i, b)| **b && *i < n).map(|(i, _)| (i, vote.clone())).collect();
+            // fault model: correct validators only sign sane values, so a certificate over an absurd view / block number
+            // carries genuine signatures of the (Byzantine) sender only, whatever its bitmap claims
+            let sane = view < 1 << 32 && num < 1 << 32;
+            let who: Vec<(usize, abs::AVote)> = signers.iter().enumerate()
+                .filter(|(i, b)| **b && *i < n && (sane || *i == from)).map(|(i, _)| (i, vote.clone())).collect();
             let qc = abs::ACqc { vote: vote.clone(), signers, sig: who };
             let payload = m["payload"].as_u64().unwrap() as usize;
             let msg = match m["kind"].as_str().unwrap() {
@@ -1729,6 +1819,7 @@ impl Prop for C10 {
         gen_noise(&mut rng, n / 8, &mut ops);
         gen_canon(&mut rng, n / 4, &mut ops);
         gen_consensus(&mut rng, n / 8, &mut ops);
+        gen_votes(&mut rng, n / 8, &mut ops);
         // certificates: add the model's view of the realised value (map in the real BTreeMap order)
         let nval = WEIGHTS.len();
         for op in ops.iter_mut() {
@@ -1784,6 +1875,7 @@ impl Prop for C10 {
             "sel" => catch(|| self.exec_sel(op)),
             "cqc" => catch(|| self.exec_cqc(op)),
             "tqc" | "implied" => catch(|| self.exec_tqc(op)),
+            "votes" => { let o = &mut *out; catch(|| self.exec_votes(op, o)) }
             "replica" => { let o = &mut *out; catch(|| self.exec_replica(op, o)) }
             _ => Ok(json!({"bad_op": true})),
         };
